@@ -112,8 +112,15 @@ impl<T: Qcow2IoOps> Qcow2Dev<T> {
 
     pub(crate) async fn load_l1_table(&self) -> Qcow2Result<usize> {
         let h = self.header.read().await;
-        self.load_top_table(&self.l1table, h.l1_table_offset())
-            .await
+        let res = self
+            .load_top_table(&self.l1table, h.l1_table_offset())
+            .await?;
+        if res > 0 {
+            // entries the header doesn't list aren't in the table, whatever
+            // the file holds there
+            self.l1table.write().await.zero_beyond_header();
+        }
+        Ok(res)
     }
 
     pub(crate) async fn get_l1_entry(&self, split: &SplitGuestOffset) -> Qcow2Result<L1Entry> {
